@@ -38,8 +38,9 @@ pub fn lookup_ops(path: &str, flagsets: &[i64], rflagsets: &[u64], all_flags_wit
         v.push(LCase { op: Op::new("resolve_nofollow").root(ROOT_IN).path(path).rflags(rf), nofollow: true });
         v.push(LCase { op: Op::new("readlink").root(ROOT_IN).path(path).rflags(rf), nofollow: true });
         for (i, &f) in flagsets.iter().enumerate() {
-            // with NO_SYMLINKS the quick tier keeps one plain and one O_PATH|O_NOFOLLOW open; thorough keeps all
-            if rf != 0 && !all_flags_with_rf && i >= 2 { continue; }
+            // with NO_SYMLINKS the quick tier keeps one plain open and every O_PATH combination (the kernel's only exception to
+            // NO_SYMLINKS is O_PATH|O_NOFOLLOW on a trailing link); thorough keeps all
+            if rf != 0 && !all_flags_with_rf && i >= 2 && f & O_PATH == 0 { continue; }
             v.push(LCase { op: Op::new("open_subpath").root(ROOT_IN).path(path).rflags(rf).flags(f), nofollow: f & O_NOFOLLOW != 0 });
         }
     }
@@ -163,7 +164,7 @@ pub fn run_item(prop: &str, tier: &str, idx: usize, only: Option<&Value>) -> MRe
     enter_jail()?;
     build_decoys()?;
     let mut k = Wk::kernel()?;
-    let mut e = Wk::emulated()?;
+    let mut e = Wk::emulated_for(idx)?;
     let root_out = out(ROOT_IN);
     let rootfd = open_path(&root_out)?;
     std::fs::create_dir_all(out(&format!("{}/mroot", PARENT_IN))).map_err(|e| Mach(format!("mkdir mroot: {}", e)))?;
